@@ -57,7 +57,8 @@ STRUCT = {
     # neither diagonal nor symmetric, atom maps that are 4-cycles
     "tetragonal-P4": dict(lat=rnp.diag([1.0, 1.0, 1.4]), pos=[[0.2, 0.1, 0.3], [-0.1, 0.2, 0.3], [-0.2, -0.1, 0.3], [0.1, -0.2, 0.3], [0, 0, 0]], names=["A", "A", "A", "A", "B"], proj=["A:s", "B:p"]),
     # same-name atoms on two different two-site orbits, listed interleaved: symmetrize has to regroup them (and restore the order with reorder_back)
-    "ortho-interleaved": dict(lat=rnp.diag([1.0, 1.2, 1.5]), pos=[[0.2, 0, 0], [0, 0.3, 0], [-0.2, 0, 0], [0, -0.3, 0], [0.5, 0.5, 0.5]], names=["X", "X", "X", "X", "Y"], proj=["X:s", "Y:s"], reorder_back=True),
+    # (the regrouping permutation [0, 3, 1, 2] is not its own inverse: going back needs the inverse permutation)
+    "ortho-interleaved": dict(lat=rnp.diag([1.0, 1.2, 1.5]), pos=[[0.2, 0, 0], [0, 0.3, 0], [0, -0.3, 0], [-0.2, 0, 0], [0.5, 0.5, 0.5]], names=["X", "X", "X", "X", "Y"], proj=["X:s", "Y:s"], reorder_back=True),
     "ortho-interleaved/control": dict(lat=rnp.diag([1.0, 1.2, 1.5]), pos=[[0.2, 0, 0], [-0.2, 0, 0], [0, 0.3, 0], [0, -0.3, 0], [0.5, 0.5, 0.5]], names=["X1", "X1", "X2", "X2", "Y"], proj=["X1:s", "X2:s", "Y:s"]),
     "monoclinic-2/m": dict(lat=rnp.array([[1.0, 0, 0], [0, 1.3, 0], [0.3, 0, 1.5]]), pos=[[0.1, 0.25, 0.2], [-0.1, 0.75, -0.2], [0.4, 0.0, 0.1], [-0.4, 0.5, -0.1]], names=["A", "A", "B", "B"], proj=["A:s", "B:s"]),
 }
